@@ -580,8 +580,9 @@ impl<'a> Gen<'a> {
             _ => { let mut cs = s.chars(); match (cs.next(), cs.next()) { (Some(c), None) => TT::Lit(v, format!("{:?}", c)), _ => TT::Paren(v, format!("({:?}.to_string())", s)) } }
         }
     }
-    fn value(&mut self, depth: usize) -> TT {
-        let k = if depth == 0 { self.r.below(6) } else { self.r.below(12) };
+    fn value(&mut self, depth: usize) -> TT { self.value_or_container(depth, false) }
+    fn value_or_container(&mut self, depth: usize, container: bool) -> TT {
+        let k = if depth == 0 { self.r.below(6) } else if container { 6 + self.r.below(6) } else { self.r.below(12) };
         match k {
             0 => TT::Null, 1 => TT::True, 2 => TT::False,
             3 | 4 | 5 => self.leaf(),
@@ -763,7 +764,8 @@ fn run_jsonm(sink: &mut Sink, thorough: bool, seed: u64, r: &mut Rng) {
     for _ in 0..n {
         let mut g = Gen { r: &mut *r, decls: vec![], nvar: 0 };
         let depth = 1 + g.r.below(3);
-        let tt = g.value(depth);
+        let top_container = !g.r.chance(1, 10);
+        let tt = g.value_or_container(depth, top_container);
         let decls = std::mem::take(&mut g.decls);
         invs.push(Invocation { tag: tag_of(&tt), tt, decls });
     }
